@@ -79,7 +79,11 @@ func (ch *ConnectionHandler) acceptStream() {
 			return
 		} else if err != nil {
 			log.WithError(err).Errorf("Error accepting stream: %v", err)
-			continue
+			// No deadline is set on the session, so a failed accept means that the session is
+			// gone (closed, timed out, or its carrier failed) and will fail the same way forever:
+			// release it and stop serving it instead of retrying in a busy loop.
+			streams.TryClose(ch.session)
+			return
 		}
 		stream = streams.NewNamedConnection(stream, stream.RemoteAddr().String())
 		log.Debugf("[Server] New logical connection accepted: %v", stream)
